@@ -86,4 +86,190 @@ theorem cat_trunc_congr (l : List (Nat × Nat)) (g : Nat → Nat → Nat) (hg : 
     obtain ⟨w, v⟩ := p
     simp only [List.map_cons, cat, ih, hg]
 
+theorem map_range'_succ {α : Type} (g : Nat → α) (s m : Nat) :
+    (List.range' (s + 1) m).map g = (List.range' s m).map (fun q => g (q + 1)) := by
+  induction m generalizing s with
+  | zero => rfl
+  | succ m ih => simp only [List.range'_succ, List.map_cons, ih (s + 1)]
+
+theorem size_gt_of_atomic (bw : Nat) (r : RegSpec) (h : isAtomic bw r = true) : bw < r.size ∧ 0 < bw := by
+  unfold isAtomic nwords at h
+  simp only [Bool.and_eq_true, decide_eq_true_eq] at h
+  have h2 := h.2
+  by_cases hbw : bw = 0
+  · subst hbw; simp at h2
+  · have hpos : 0 < bw := Nat.pos_of_ne_zero hbw
+    have := (Nat.le_div_iff_mul_le hpos).mp h2
+    omega
+
+/-- The committed value when the back-store holds the staged upper words. -/
+theorem commit_value (bw size n : Nat) (ds : List Nat) (back : List Nat) (hn : 1 < n) (hsz : bw < size)
+    (hback : back = (List.range' 0 (n - 1)).map fun q => trunc (wordBits bw size (q + 1)) (ds.getD (n - 2 - q) 0)) :
+    cat ((bw, ds.getD (n - 1) 0) :: backPairs bw size back 1) = cat (wordPairsBig bw size n ds) := by
+  have hn' : n = (n - 1) + 1 := by omega
+  unfold wordPairsBig
+  rw [List.range_eq_range', hn', List.range'_succ, List.map_cons, map_range'_succ]
+  rw [hback, backPairs_map_range bw size _ (n - 1) 0]
+  have hw0 : wordBits bw size 0 = bw := by unfold wordBits; simp; omega
+  simp only [Nat.sub_zero, hw0, Nat.add_sub_cancel]
+  show cat (_ :: _) = cat (_ :: _)
+  simp only [cat]
+  congr 2
+  have := cat_trunc_congr ((List.range' 0 (n - 1)).map fun q => (wordBits bw size (q + 1), ds.getD (n - 2 - q) 0))
+    (fun w v => trunc w v) (fun w v => by simp [trunc])
+  rw [List.map_map] at this
+  have h2 : (List.range' 0 (n - 1)).map (fun q => (wordBits bw size (q + 1), ds.getD (n - 1 - (q + 1)) 0)) =
+      (List.range' 0 (n - 1)).map (fun q => (wordBits bw size (q + 1), ds.getD (n - 2 - q) 0)) := by
+    apply List.map_congr_left
+    intro q _
+    congr 2
+    omega
+  rw [h2]
+  exact this
+
+
+theorem wordAdr_big (c : BankCfg) (k m : Nat) (hbig : c.ord = .big) (hkind : (c.spec k).kind ≠ .raw)
+    (hm : m < nwords c.bw (c.spec k).size) :
+    c.wordAdr k (nwords c.bw (c.spec k).size - 1) + m = c.wordAdr k (nwords c.bw (c.spec k).size - 1 - m) := by
+  unfold BankCfg.wordAdr addrOf posIn
+  rw [show c.regs.getD k default = c.spec k from rfl]
+  cases hkd : (c.spec k).kind
+  · simp only [hbig, wordPos]; omega
+  · simp only [hbig, wordPos]; omega
+  · exact absurd hkd hkind
+
+section
+variable (c : BankCfg) (hfit : c.Fits) (k : Nat) (hk : k < c.regs.length)
+  (hkind : (c.spec k).kind = .storage) (hat : isAtomic c.bw (c.spec k) = true) (hbig : c.ord = .big)
+  (ds : List Nat) (old : Nat)
+
+/-- State invariant after `m` of the `n` words have been written. -/
+def AtomicInv (m : Nat) (s : BankState) : Prop :=
+  let n := nwords c.bw (c.spec k).size
+  (s.reg k).back.length = n - 1 ∧
+  (∀ p, p < m → p < n - 1 →
+      (s.reg k).back[n - 2 - p]? = some (trunc (wordBits c.bw (c.spec k).size (n - 1 - p)) (ds.getD p 0))) ∧
+  (m < n → (s.reg k).val = old) ∧
+  (m = n → (s.reg k).val = trunc (c.spec k).size (cat (wordPairsBig c.bw (c.spec k).size n ds)))
+
+include hfit hk hkind hat hbig in
+theorem atomic_seq (hds : ds.length = nwords c.bw (c.spec k).size) :
+    ∀ (m : Nat) (rest : List Nat) (ins : List BankIn),
+      AscWrites c k (c.wordAdr k (nwords c.bw (c.spec k).size - 1)) m rest ins →
+      ∀ s, rest = ds.drop m → m ≤ nwords c.bw (c.spec k).size → AtomicInv c k ds old m s →
+        (∀ pre, pre <+: ins →
+            (((bank c).runFrom s pre).reg k).val = old ∨
+            (((bank c).runFrom s pre).reg k).val =
+              trunc (c.spec k).size (cat (wordPairsBig c.bw (c.spec k).size (nwords c.bw (c.spec k).size) ds))) ∧
+        (((bank c).runFrom s ins).reg k).val =
+          trunc (c.spec k).size (cat (wordPairsBig c.bw (c.spec k).size (nwords c.bw (c.spec k).size) ds)) := by
+  intro m rest ins h
+  have hraw : (c.spec k).kind ≠ .raw := by rw [hkind]; decide
+  have hn1 : 1 < nwords c.bw (c.spec k).size := by
+    have := hat; unfold isAtomic at this; simp at this; exact this.2
+  induction h with
+  | done m =>
+    intro s hrest hm hinv
+    have hmn : m = nwords c.bw (c.spec k).size := by
+      have := congrArg List.length hrest
+      simp at this
+      omega
+    have hv := hinv.2.2.2 hmn
+    refine ⟨fun pre hpre => ?_, hv⟩
+    have : pre = [] := by simpa using hpre
+    subst this
+    exact Or.inr hv
+  | quiet m rest i ins hq _ ih =>
+    intro s hrest hm hinv
+    obtain ⟨hval, hback⟩ := next_reg_quiet c s i k hk hkind hq
+    have hinv' : AtomicInv c k ds old m ((bank c).next s i) := by
+      unfold AtomicInv at hinv ⊢
+      simp only [hval, hback]
+      exact hinv
+    obtain ⟨ih1, ih2⟩ := ih ((bank c).next s i) hrest hm hinv'
+    refine ⟨fun pre hpre => ?_, ih2⟩
+    cases pre with
+    | nil =>
+      by_cases hmn : m < nwords c.bw (c.spec k).size
+      · exact Or.inl (hinv.2.2.1 hmn)
+      · exact Or.inr (hinv.2.2.2 (by omega))
+    | cons x pre' =>
+      have hx := List.cons_prefix_cons.mp hpre
+      rw [hx.1]
+      exact ih1 pre' hx.2
+  | write m d rest i ins hw _ ih =>
+    intro s hrest hm hinv
+    have hmn : m < nwords c.bw (c.spec k).size := by
+      have := congrArg List.length hrest
+      simp at this
+      omega
+    have hd : d = ds.getD m 0 := by
+      have : (ds.drop m)[0]? = some d := by rw [← hrest]; rfl
+      rw [List.getElem?_drop] at this
+      simp only [Nat.add_zero] at this
+      simp [List.getD_eq_getElem?_getD, this]
+    have hrest' : rest = ds.drop (m + 1) := by
+      have : (d :: rest).tail = (ds.drop m).tail := by rw [hrest]
+      simpa [List.tail_drop] using this
+    rw [wordAdr_big c k m hbig hraw hmn] at hw
+    have hvw : c.ValidWord k (nwords c.bw (c.spec k).size - 1 - m) :=
+      ⟨hk, by rw [show c.regs.getD k default = c.spec k from rfl, regWords_of_not_raw _ _ hraw]; omega⟩
+    obtain ⟨hlen, hpt, hold, _⟩ := hinv
+    have hpre0 : (s.reg k).val = old := hold hmn
+    by_cases hlast : m = nwords c.bw (c.spec k).size - 1
+    · -- the last (highest-address) word: word 0, commit
+      have hj0 : nwords c.bw (c.spec k).size - 1 - m = 0 := by omega
+      rw [hj0] at hw hvw
+      obtain ⟨hval, hback⟩ := next_reg_commit c hfit s i k d hvw hkind hat hw
+      have hbk : (s.reg k).back = (List.range' 0 (nwords c.bw (c.spec k).size - 1)).map fun q =>
+          trunc (wordBits c.bw (c.spec k).size (q + 1)) (ds.getD (nwords c.bw (c.spec k).size - 2 - q) 0) := by
+        apply List.ext_getElem?
+        intro q
+        by_cases hq : q < nwords c.bw (c.spec k).size - 1
+        · have := hpt (nwords c.bw (c.spec k).size - 2 - q) (by omega) (by omega)
+          rw [show nwords c.bw (c.spec k).size - 2 - (nwords c.bw (c.spec k).size - 2 - q) = q by omega,
+              show nwords c.bw (c.spec k).size - 1 - (nwords c.bw (c.spec k).size - 2 - q) = q + 1 by omega] at this
+          rw [this, List.getElem?_map, List.getElem?_range' (by omega)]
+          simp
+        · rw [List.getElem?_eq_none (by omega), List.getElem?_eq_none (by simp; omega)]
+      have hcv := commit_value c.bw (c.spec k).size _ ds _ hn1 (size_gt_of_atomic _ _ hat).1 hbk
+      have hnew : (((bank c).next s i).reg k).val =
+          trunc (c.spec k).size (cat (wordPairsBig c.bw (c.spec k).size (nwords c.bw (c.spec k).size) ds)) := by
+        rw [hval, hd, hlast, hcv]
+      have hinv' : AtomicInv c k ds old (m + 1) ((bank c).next s i) := by
+        refine ⟨by rw [hback]; exact hlen, fun p hp hp' => ?_, fun h => by omega, fun _ => hnew⟩
+        rw [hback]
+        exact hpt p (by omega) hp'
+      obtain ⟨ih1, ih2⟩ := ih ((bank c).next s i) hrest' (by omega) hinv'
+      refine ⟨fun pre hpre => ?_, ih2⟩
+      cases pre with
+      | nil => exact Or.inl hpre0
+      | cons x pre' =>
+        have hx := List.cons_prefix_cons.mp hpre
+        rw [hx.1]
+        exact ih1 pre' hx.2
+    · -- an upper word: staged
+      have hj : nwords c.bw (c.spec k).size - 1 - m ≠ 0 := by omega
+      obtain ⟨hval, hback⟩ := next_reg_stage c hfit s i k _ d hvw hkind hat hj hw
+      have hinv' : AtomicInv c k ds old (m + 1) ((bank c).next s i) := by
+        refine ⟨by rw [hback, List.length_set]; exact hlen, fun p hp hp' => ?_, fun _ => by rw [hval]; exact hpre0,
+          fun h => by omega⟩
+        rw [hback]
+        by_cases hpm : p = m
+        · subst hpm
+          rw [show nwords c.bw (c.spec k).size - 1 - p - 1 = nwords c.bw (c.spec k).size - 2 - p by omega]
+          rw [List.getElem?_set_self (by omega), hd]
+        · rw [List.getElem?_set_ne (by omega)]
+          exact hpt p (by omega) hp'
+      obtain ⟨ih1, ih2⟩ := ih ((bank c).next s i) hrest' (by omega) hinv'
+      refine ⟨fun pre hpre => ?_, ih2⟩
+      cases pre with
+      | nil => exact Or.inl hpre0
+      | cons x pre' =>
+        have hx := List.cons_prefix_cons.mp hpre
+        rw [hx.1]
+        exact ih1 pre' hx.2
+end
+
+
 end Litex.Csr
